@@ -732,8 +732,55 @@ impl FlexScen {
             .collect();
         gtlog.sort();
         let gtlog: Vec<String> = gtlog.iter().map(|(h, o)| format!("{}:{}", h, opt_str(o))).collect();
+        // the cw4 helper functions other contracts use (packages/cw4 `Cw4Contract`) must answer like the
+        // group's own smart queries: model-independent self-check, reported as `hdiff=`
+        let mut hdiff: Vec<String> = vec![];
+        {
+            let helper = cw4::Cw4Contract(group.clone());
+            let q = app.wrap();
+            let mut hs: Vec<u64> = self.ph.iter().map(|(_, h)| *h).collect();
+            hs.push(self.block.height);
+            hs.sort();
+            hs.dedup();
+            let hs: Vec<u64> = hs.into_iter().rev().take(3).collect();
+            let smart = |a: &Addr, h: Option<u64>| -> Option<Option<u64>> {
+                self.qs::<MemberResponse>(group, &GroupQuery::Member { addr: a.to_string(), at_height: h }).map(|r| r.weight)
+            };
+            for a in u.iter() {
+                if let Some(sw) = smart(a, None) {
+                    if helper.is_member(&q, a, None).ok() != Some(sw) {
+                        hdiff.push(format!("is_member({a},None)"));
+                    }
+                }
+                for h in &hs {
+                    if let Some(sw) = smart(a, Some(*h)) {
+                        if helper.is_member(&q, a, Some(*h)).ok() != Some(sw) {
+                            hdiff.push(format!("is_member({a},{h})"));
+                        }
+                        if helper.member_at_height(&q, a.to_string(), Some(*h)).ok() != Some(sw) {
+                            hdiff.push(format!("member_at_height({a},{h})"));
+                        }
+                        if helper.is_voting_member(&q, a, *h).ok() != Some(sw.filter(|w| *w >= 1)) {
+                            hdiff.push(format!("is_voting_member({a},{h})"));
+                        }
+                    }
+                }
+            }
+            if let Some(t) = self.qs::<TotalWeightResponse>(group, &GroupQuery::TotalWeight { at_height: None }) {
+                if helper.total_weight(&q).ok() != Some(t.weight) {
+                    hdiff.push("total_weight".to_string());
+                }
+            }
+            if let Some(l) = self.qs::<MemberListResponse>(group, &GroupQuery::ListMembers { start_after: None, limit: None }) {
+                if helper.list_members(&q, None, None).ok() != Some(l.members) {
+                    hdiff.push("list_members".to_string());
+                }
+            }
+            hdiff.truncate(3);
+        }
         format!(
-            "obs pagediff={} thr={} cfg={} props={} rprops={} pprops={} raw={} ph={} votes={} pvotes={} voters={} pvoters={} members={} gtotal={} gadmin={} ghooks={} snap={} bank={} cw20={} allow={} gmlog={} gtlog={}",
+            "obs hdiff={} pagediff={} thr={} cfg={} props={} rprops={} pprops={} raw={} ph={} votes={} pvotes={} voters={} pvoters={} members={} gtotal={} gadmin={} ghooks={} snap={} bank={} cw20={} allow={} gmlog={} gtlog={}",
+            hdiff.join(","),
             pagediff.join(","),
             thr,
             cfg,
@@ -960,7 +1007,7 @@ impl FlexScen {
             666_666_666_666_666_667,
             1_000_000_000_000_000_000,
             500_000_000_000_000_001,
-            750_000_000_000_000_000,
+            500_000_100_000_000_000, // 0.5000001: 'strictly more than half' with 7 decimals
             499_999_999_999_999_999,  // invalid
             1_000_000_000_000_000_001, // invalid
         ];
